@@ -741,7 +741,7 @@ func (fx *FnCtx) typeAssume(v Term, t types.Type, st *State) Term {
 		if stt, ok := u.Elem().Underlying().(*types.Struct); ok && !fx.P.embeddable(u.Elem()) && stt.NumFields() > 0 {
 			// pointers to structs that are never embedded by value denote whole objects:
 			// aligned to the allocation step and carrying their struct type
-			r = and(r, eq(app("Int", "mod", v, Term{allocStep, "Int"}), Term{"0", "Int"}),
+			r = and(r, eq(app("Int", "iaoff", v), Term{"0", "Int"}),
 				implies(not(eq(v, Term{"0", "Int"})), eq(app("Int", "objtype", v), intLit(int64(fx.P.sorts.typeID(u.Elem()))))))
 		}
 		return r
